@@ -118,7 +118,11 @@ class Harness:
             edifact_format, edifact_format_version = fmt, ver
 
             def _get_default_context(self):
-                return None
+                # a real context, a fresh one per call: the evaluation methods below narrow the scope of the context they are handed and rely on it
+                # after they suspended (the documented use of EvaluationContext: "pass by reference", so an evaluator works on its own)
+                from ahbicht.content_evaluation.evaluationdatatypes import EvaluationContext
+
+                return EvaluationContext(scope=None)
 
             async def evaluate_conditions(self, condition_keys, evaluatable_data, condition_keys_with_context=None):
                 keys = list(condition_keys)
@@ -131,8 +135,14 @@ class Harness:
                 return r
 
         def make_rc(k):
-            async def ev(self, evaluatable_data, context):  # pylint: disable=unused-argument
-                return await H.rc_call(k, evaluatable_data)
+            async def ev(self, evaluatable_data, context):
+                mine = f"$.bedingung[{k}]"
+                if context is not None:
+                    context.scope = mine
+                r = await H.rc_call(k, evaluatable_data)
+                if context is not None and context.scope != mine:
+                    H.log.append(("rc-context", k, mine, context.scope))   # somebody else wrote to the context this evaluation was handed
+                return r
 
             return ev
 
@@ -416,7 +426,7 @@ def sc_rc(name, expr, rc, hints):
 
         H.reset(rc=rc, hints=hints, yields=yields)
         out = H.run(lambda: requirement_constraint_evaluation(expr))
-        strangers = [e for e in H.log if e[0] == "other-version"]
+        strangers = [e for e in H.log if e[0] in ("other-version", "rc-context")]
         return canon(out) + ("|LEAK " + repr(strangers[:3]) if strangers else ""), site_cases(H, yields, rc, hints, {}, False)
 
     return Scenario("requirement_constraint_evaluation", name, {"expression": expr, "rc": rc, "hints": hints}, slots, fn)
@@ -977,7 +987,7 @@ def run(ctx):
                 base = out
             inp = {"kind": sc.kind, "scenario": sc.name, "params": sc.params, "slots": [[list(map(str, t)), j] for t, j in sc.slots], "yield_vector": list(vec)}
             if "|LEAK" in out:
-                ctx.fail(f"{sc.name}|leak", inp, "every evaluator finds its own task's text in the ContextVar after yielding, and only the evaluators registered for the format version in use are asked",
+                ctx.fail(f"{sc.name}|leak", inp, "every evaluator finds its own task's text in the ContextVar after yielding and the evaluation context it was handed untouched by others; only the evaluators registered for the format version in use are asked",
                          out, "oracle: context isolation")
             elif out != base:
                 ctx.fail(f"{sc.name}|order", inp, base, out, "oracle: result for this yield vector differs from the result when nothing yields")
